@@ -83,7 +83,12 @@ def run(ctx: Ctx, tier: str) -> Result:
     vsp = p.cls(VSP)
     av = vsp.lookup("append_variable")
     st = [n for n in t.nodes_in(av, ast.Assign) if isinstance(n.targets[0], ast.Subscript)]
-    if len(st) == 1 and norm(st[0].targets[0].slice) == av.params[1] and norm(st[0].value) == av.params[2] and "var_lookup" in norm(st[0].targets[0].value):
+    uncond = len(st) == 1 and not paths.conditions(p, st[0], av) and not paths.enclosing_loops(p, st[0], av) and ctx.guards.catching_try(st[0], av, "Exception") is None
+    if len(st) == 1 and not uncond:
+        res.fail(Finding("C07.ENTRY", av.qname, st[0], av.loc(st[0]), "append_variable stores the entry only when `%s`: an id that was issued (and stays in the identity cache) is left without "
+                         "its entry, and every reference to that object - from its parent, a frame, a watch - points at nothing" % (
+                             " and ".join(("" if pol else "not ") + norm(c_) for c_, pol in paths.conditions(p, st[0], av))[:80] or "no exception occurs")))
+    elif len(st) == 1 and norm(st[0].targets[0].slice) == av.params[1] and norm(st[0].value) == av.params[2] and "var_lookup" in norm(st[0].targets[0].value):
         res.ok("C07.ENTRY", {"append_variable": norm(st[0])})
     else:
         res.fail(Finding("C07.ENTRY", av.qname, "<lookup[var_id] = variable>", av.loc(), "append_variable does not store the variable under its id in the table"))
